@@ -267,7 +267,7 @@ class StringLiteral(BaseType):
             limit = options.get(self.TypeStyle.max_literals)
             if limit is None or len(self.literals) < limit:
                 parts = ', '.join(
-                    json.dumps(s)
+                    json.dumps(s, ensure_ascii=False)
                     for s in sorted(self.literals)
                 )
                 return [(Literal.__module__, 'Literal')], f"Literal[{parts}]"
